@@ -69,9 +69,11 @@ def run(chk):
         if aab:
             rule_outer(chk, aab, pd)
     rule_params(chk)
-    rule_lang_slot_eval(chk)
+    lang_readable = rule_lang_slot_eval(chk)
+    rule_attributes_eval(chk)
     rule_group_index_eval(chk)
-    rule_source(chk)
+    if not lang_readable:
+        rule_source(chk)        # (the value-origin rule is the fallback of the declaration tables)
 
 
 REG = {"Texture2D": "T", "StructuredBuffer": "T", "RWStructuredBuffer": "U", "ByteAddressBuffer": "T", "RWByteAddressBuffer": "U", "SamplerState": "S",
@@ -136,7 +138,57 @@ def rule_alloc_eval(chk, aab):
     return True
 
 
-def rule_lang_slot_eval(chk):
+def rule_attributes_eval(chk):
+    """parse_attributes_for_global read on attribute lists built from [[rssl::bind_group(g)]], [[vk::binding(i)]],
+    [[vk::binding(i, g)]] and [[rssl::bindless]] in every order of up to three: each attribute sets exactly what it names
+    (group; slot; slot and group; the bindless flag) and leaves the rest as the earlier attributes left it - an explicit
+    group written on a declaration is not lost because a slot is written after it."""
+    import interp as I
+    import itertools
+    f = chk.facts
+    fn = f.fn("parse_attributes_for_global", "rssl_typer")
+    if not fn:
+        chk.note("C06.attrs: parse_attributes_for_global not found; not decided")
+        return
+    loc = lambda v: I.Enum("Located", None, {"node": v, "location": I.Opaque("location")})
+    arg = lambda n_: loc(I.Enum("Expression", "Tagged", {"n": n_}))
+    attr = lambda ns, leaf, *a: I.Enum("Attribute", None, {"name": [loc(ns), loc(leaf)], "arguments": [arg(x) for x in a], "two_square_brackets": True})
+    kinds = {"bind_group(3)": (lambda: attr("rssl", "bind_group", 3), {"group": 3}), "binding(5)": (lambda: attr("vk", "binding", 5), {"index": 5}),
+             "binding(6, 2)": (lambda: attr("vk", "binding", 6, 2), {"index": 6, "group": 2}), "bindless": (lambda: attr("rssl", "bindless"), {"bindless": True})}
+
+    def deref(v):
+        return v.get() if isinstance(v, I.Ref) else v
+    ext = {"parse_expr_as_u32": lambda a: I.Enum("Result", "Ok", {"0": deref(a[0]).fields["node"].fields["n"]})}
+    flat = lambda o: o.fields["0"] if isinstance(o, I.Enum) and o.variant == "Some" else None
+    bad = None
+    n = 0
+    for k in (0, 1, 2, 3):
+        for combo in itertools.permutations(kinds, k):
+            want = {"group": None, "index": None, "bindless": False}
+            for nm in combo:
+                want.update(kinds[nm][1])
+            try:
+                r = I.Interp(f, max_depth=6, extern=ext).apply(fn, [[kinds[nm][0]() for nm in combo], I.Opaque("context")])
+            except I.Unknown as e:
+                if "panicking" in str(e):
+                    bad = bad or "parse_attributes_for_global aborts on %s (%s)" % (list(combo), str(e)[:60])
+                    n += 1
+                    continue
+                chk.unreadable("C06.attrs/each-sets-its-own", "parse_attributes_for_global on model attribute lists", str(e)[:100], where(fn))
+                return
+            n += 1
+            if not (isinstance(r, I.Enum) and r.variant == "Ok" and isinstance(r.fields.get("0"), I.Enum)):
+                bad = bad or "the attribute list %s is refused" % (list(combo),)
+                continue
+            g = r.fields["0"].fields
+            got = {"group": flat(g.get("binding_group_override")), "index": flat(g.get("binding_index_override")), "bindless": g.get("is_bindless")}
+            if got != want and bad is None:
+                bad = "a declaration written with %s gets (group, slot, bindless) = (%s, %s, %s), the attributes say (%s, %s, %s): an explicit placement written in the source is dropped or changed" % (
+                    " ".join("[[%s]]" % c for c in combo), got["group"], got["index"], got["bindless"], want["group"], want["index"], want["bindless"])
+    chk.ob("C06.attrs/each-sets-its-own", bad is None, bad or "%d attribute lists: every attribute sets exactly what it names" % n, where(fn), sample={"lists": n})
+
+
+def rule_lang_slot_eval(chk, prefix="C06.lang"):
     """parse_rootdefinition_globalvariable read as a table: statements with one to three declarators, each with or without
     register(..) annotations (slot, space, both), with and without the binding-index / bind-group attributes. Every global
     must get the binding written on ITS declarator (none -> no explicit group and slot, so the default group applies),
@@ -195,7 +247,7 @@ def rule_lang_slot_eval(chk):
                     if "panicking" in str(e):
                         bad.setdefault("aborts", "parse_rootdefinition_globalvariable aborts on `Texture2D %s;` (%s)" % (", ".join(nm + show(a) for nm, a in decls), str(e)[:60]))
                         continue
-                    chk.note("C06.lang: parse_rootdefinition_globalvariable is not readable (%s); the value-origin rule decides" % str(e)[:80])
+                    chk.note("%s: parse_rootdefinition_globalvariable is not readable (%s); the value-origin rule decides" % (prefix, str(e)[:80]))
                     return False
                 n += 1
                 want = [((grp_over if grp_over is not None else (a[1] if a else None)), (idx_over if idx_over is not None else (a[0] if a else None))) for a in combo]
@@ -223,23 +275,23 @@ def rule_lang_slot_eval(chk):
                     r = I.Interp(f, max_depth=6, extern=ext).apply(cbf, [cb, ctx])
                 except I.Unknown as e:
                     if "panicking" in str(e):
-                        bad.setdefault("cbuffer", "parse_rootdefinition_constantbuffer aborts on `cbuffer CB%s` (%s)" % (show(ann).replace("t", "b", 1), str(e)[:60]))
+                        bad.setdefault("cbuffer", "parse_rootdefinition_constantbuffer aborts on `cbuffer CB%s` (%s)" % (show(ann).replace("(t", "(b", 1), str(e)[:60]))
                         continue
-                    chk.note("C06.lang: parse_rootdefinition_constantbuffer is not readable (%s); the value-origin rule decides" % str(e)[:80])
-                    break
+                    chk.note("%s: parse_rootdefinition_constantbuffer is not readable (%s); the value-origin rule decides" % (prefix, str(e)[:80]))
+                    return False
                 n += 1
                 flat = lambda o: o.fields["0"] if isinstance(o, I.Enum) and o.variant == "Some" else None
                 got = (flat(regs[0].fields["lang_binding"].fields["set"]), flat(regs[0].fields["lang_binding"].fields["index"])) if len(regs) == 1 else None
                 want = ((grp_over if grp_over is not None else (ann[1] if ann else None)), (idx_over if idx_over is not None else (ann[0] if ann else None)))
                 if not (isinstance(r, I.Enum) and r.variant == "Ok") or got != want:
                     bad.setdefault("cbuffer", "`cbuffer CB%s`%s gets explicit (group, slot) %s, must be %s" % (
-                        show(ann).replace("t", "b", 1), "" if (idx_over, grp_over) == (None, None) else " with attribute override (index %s, group %s)" % (idx_over, grp_over), got, want))
-        chk.ob("C06.lang/cbuffer", "cbuffer" not in bad, bad.get("cbuffer") or "a constant buffer gets the binding of its own register annotation, overridden only by the attributes", where(cbf))
+                        show(ann).replace("(t", "(b", 1), "" if (idx_over, grp_over) == (None, None) else " with attribute override (index %s, group %s)" % (idx_over, grp_over), got, want))
+        chk.ob(prefix + "/cbuffer", "cbuffer" not in bad, bad.get("cbuffer") or "a constant buffer gets the binding of its own register annotation, overridden only by the attributes", where(cbf))
     for key in ("1-declarator", "2-declarator", "3-declarator", "1-declarator/override", "2-declarator/override", "3-declarator/override", "aborts"):
         if key == "aborts" and key not in bad:
             continue
-        chk.ob("C06.lang/" + key, key not in bad, bad.get(key) or "every global gets the binding of its own declarator", where(fn), sample={"case": key})
-    chk.floor("C06.floor/lang-slot-cases", n, 100, "global variable statements evaluated", where(fn))
+        chk.ob(prefix + "/" + key, key not in bad, bad.get(key) or "every global gets the binding of its own declarator", where(fn), sample={"case": key})
+    chk.floor(prefix.split(".")[0] + ".floor/lang-slot-cases", n, 100, "global variable statements evaluated", where(fn))
     return True
 
 
